@@ -392,17 +392,14 @@ class ASTSchemaPrinter:
     def print_schema_definition(self, schema: Schema) -> str:
         directives = self.print_directives(schema)
 
+        # Without a schema definition the root types are looked up by their
+        # default names, so it can only be omitted when that lookup gives the
+        # schema's own root types (including no root type at all).
         if (
             not directives
-            and (not schema.query_type or schema.query_type.name == "Query")
-            and (
-                not schema.mutation_type
-                or schema.mutation_type.name == "Mutation"
-            )
-            and (
-                not schema.subscription_type
-                or schema.subscription_type.name == "Subscription"
-            )
+            and schema.types.get("Query") is schema.query_type
+            and schema.types.get("Mutation") is schema.mutation_type
+            and schema.types.get("Subscription") is schema.subscription_type
         ):
             return ""
 
